@@ -543,8 +543,8 @@ def replay(rp):
         if st != "ok" or res["exc"] is not None:
             return None
         for path, a, b in C.pairs_of(rp["op"], res) or []:
-            d = C.equiv(a, b, 6, 32)
+            d = C.equiv([(n, None if n == "tag" else v) for n, v in a], [(n, None if n == "tag" else v) for n, v in b], 6, 32)
             if d is not None:
-                return {"class": ["corrupt-peer-accepted", d[0]], "detail": d[1], "replay": rp}
+                return {"class": ["corrupt-peer-accepted", d[0].split(":")[0]], "detail": d[1], "replay": rp}
         return None
     return None
